@@ -683,7 +683,23 @@ func renderText(t *TextMatch, vals []string) string {
 	if t.Negate {
 		s += "|negate"
 	}
-	return s + "|" + containsWord(vals, t.Text)
+	s += "|" + containsWord(vals, t.Text)
+	comma, esc := false, false
+	for _, v := range vals {
+		if strings.Contains(v, ",") {
+			comma = true
+		}
+		if strings.Contains(v, "\\") {
+			esc = true
+		}
+	}
+	if comma {
+		s += "|comma-in-value"
+	}
+	if esc {
+		s += "|backslash-in-value"
+	}
+	return s
 }
 
 func renderProp(f PropFilter, comps []Comp, deep bool) string {
